@@ -551,7 +551,6 @@ def run_world(arg):
                         damaged.add(s)
                         viol.append(('c06', f'access:{rel}-key-damaged-foreign-snapshot',
                                      f'after {st["kind"]} by {st["user"]} ({u.kind}) snapshot #{s} of key {d["owner"]} no longer restores exactly ({err or "content differs"})', rp))
-                        break
             # ---- observations by EVERY user
             st['queries'], st['obs'] = [], []
             for vi in range(len(w.users)):
